@@ -12,6 +12,10 @@ Wire format of implrun flag-eval: JSON lines, option values hex-encoded (see har
 import json, re, shutil, tempfile
 from concurrent.futures import ThreadPoolExecutor
 from vlib import *
+try:
+    from checks import c02_batch
+except Exception:  # pragma: no cover
+    import c02_batch
 
 # ------------------------------------------------------------------------------------------------ documentation, transcribed
 # reference-main-flag-list.md "Format-conversion keystroke-saver flags": letters -> formats
@@ -49,6 +53,9 @@ SEP_FLAGS = ["--ifs", "--ofs", "--fs", "--ips", "--ops", "--ps", "--irs", "--ors
 REGEX_SEP_FLAGS = ["--ifs-regex", "--ips-regex"]
 # contexts: the same overriding separator flags appended to both spellings
 TAILS = [[], ["--ifs", ";", "--ips", ":"], ["--ofs", ";", "--ops", ":"], ["--irs", ";", "--ors", ";"]]
+
+# prefix contexts: a separator flag given BEFORE the keystroke saver / its expansion (main-flag order matters in Miller)
+PREFIXES = [["--ifs", ";"], ["--ofs", ";"], ["--ips", ":"], ["--ops", ":"], ["--irs", ";"], ["--ors", ";"]]
 
 KS_SECTION = "Format-conversion keystroke-saver flags"
 FORMAT_SECTIONS = ["File-format flags", KS_SECTION, "Legacy flags", "Markdown-only flags"]
@@ -136,6 +143,8 @@ def build_argvs(table, seps):
         e = expansion_of(s)
         if e is not None:
             add_ctx([s]); add_ctx(e)
+            for pfx in PREFIXES:
+                add(pfx + [s]); add(pfx + e)
     for x in MATRIX_LETTERS:
         for y in MATRIX_LETTERS + "b":
             add_ctx([IN_LETTER[x]] + OUT_LETTER[y])
@@ -277,7 +286,7 @@ DATA["dkvpx"] = DATA["dkvp"]
 DATA["asvlite"] = DATA["asv"]
 DATA["usvlite"] = DATA["usv"]
 LEAK_CSV = b'a,b\n1,x"y\n3,"u"v\n'          # needs --lazy-quotes: shows reader options leaking out of a format flag
-PROBE = ('end{eprint "<<SEPVARS IFS=[".IFS."] IPS=[".IPS."] IRS=[".IRS."] OFS=[".OFS."] OPS=[".OPS."] ORS=[".ORS.'
+PROBE = ('end{print "<<SEPVARS IFS=[".IFS."] IPS=[".IPS."] IRS=[".IRS."] OFS=[".OFS."] OPS=[".OPS."] ORS=[".ORS.'
          '"] FLATSEP=[".FLATSEP."] SEPVARS>>"}')
 
 
@@ -307,20 +316,28 @@ class Runner:
         return key
 
     def run_all(self):
+        """jobs without an environment go through implrun mlr-batch (in-process, c02_batch); .mlrrc jobs need MLRRC in the
+        environment of the process and go through the mlr binary.  The DSL separator variables are printed by the probe
+        into stdout (print in an end block), cut out again here."""
+        def split(st, out, err):
+            m = re.search(rb"<<SEPVARS (.*?) SEPVARS>>\n?", out, re.S)
+            if m:
+                out = out[:m.start()] + out[m.end():]
+            e = err if isinstance(err, bytes) else str(err).encode()
+            return (st, out, m.group(1) if m else None, re.sub(rb"/tmp/c02batch-[^/]*/in\d+", b"<stdin>", e)[-300:])
+        plain = [k for k in self.jobs if not k[2]]
+        withenv = [k for k in self.jobs if k[2]]
+        res = c02_batch.run_jobs(self.ctx, [(list(k[0]), k[1]) for k in plain], label="flag_oracle_batch", crosscheck=4)
+        for k, (st, out, err) in zip(plain, res):
+            self.memo[k] = split(st if st in (0, "hang") else 1, out, err)
+
         def one(key):
             args, stdin, env = key
-            st, out, err = mlr_run(self.ctx, list(args), stdin, timeout=30, env=dict(env) or None)
-            m = re.search(rb"<<SEPVARS (.*?) SEPVARS>>", err, re.S)
-            return key, (st, out, m.group(1) if m else None, err[-300:])
-        with ThreadPoolExecutor(max_workers=3) as ex:
-            for key, val in ex.map(one, self.jobs):
+            st, out, err = mlr_run(self.ctx, list(args), stdin, timeout=60, env=dict(env) or None)
+            return key, split(st, out, err)
+        with ThreadPoolExecutor(max_workers=2) as ex:
+            for key, val in ex.map(one, withenv):
                 self.memo[key] = val
-        for key in self.jobs:                      # a timeout on a loaded machine is not an observation: retry alone
-            if self.memo[key][0] == "hang":
-                args, stdin, env = key
-                st, out, err = mlr_run(self.ctx, list(args), stdin, timeout=180, env=dict(env) or None)
-                m = re.search(rb"<<SEPVARS (.*?) SEPVARS>>", err, re.S)
-                self.memo[key] = (st, out, m.group(1) if m else None, err[-300:])
         self.jobs = []
 
     def get(self, key):
@@ -332,10 +349,8 @@ def show(b):
 
 
 KNOWN_CLASS = [
-    # (predicate on (flag, probe), class)
-    (lambda f, p: f == "--t2n" and p == "leak", "flag-spelling:--t2n-sets-lazy-quotes"),
-    (lambda f, p: re.fullmatch(r"--[ctdnjpmx]2l", f) and p == "main", "flag-spelling:--X2l-is-not-ojsonl"),
-    (lambda f, p: re.fullmatch(r"--m2[ctdnjlxy]", f) and p == "main", "flag-spelling:--m2X-keeps-ifs-comma"),
+    # (predicate on (flag, probe), class) -- empty: --t2n lazy quotes, --X2l json/jsonl and --m2X IFS were repaired in /repo
+    # (KNOWN_FINDINGS.txt "fixed:" lines); a regression is reported as flag-spelling:<flag>
 ]
 
 
@@ -384,7 +399,7 @@ def flag_oracle(ctx, gen=None):
         """To keep the number of mlr processes small, a pair whose FINAL option dumps are identical in every field (the
         reader, the writer and the DSL see nothing else) is only run as a seeded sample (cross-check of implrun flag-eval
         against the real command line); every pair whose dumps differ in any field is always run."""
-        quota = {"keystroke": 16, "iopair": 4, "ioform": 8, "altname": 4, "sepalias": 10}
+        quota = {"keystroke": 16, "prefix": 12, "iopair": 4, "ioform": 8, "altname": 4, "sepalias": 10}
         for kind in sorted({c["kind"] for c in pending}):
             rest = [c for c in pending if c["kind"] == kind and not c["must"] and c["probe"] == "main"]
             for c in ctx.rng.sample(rest, min(len(rest), quota.get(kind, 0))):
@@ -412,6 +427,13 @@ def flag_oracle(ctx, gen=None):
         d = DATA["csv"] if s == "-N" else input_data(e)
         compare("keystroke", s, [s], e, d, pre=pre)
         compare("keystroke", s, [s], e, LEAK_CSV, pre=pre, post=["--icsv", "--ojson"], probe="leak")
+    # 1b. the same with a separator flag BEFORE the keystroke saver / its expansion
+    for s in allsp:
+        e = expansion_of(s)
+        if e is None or s == "-N":
+            continue
+        for pfx in PREFIXES:
+            compare("prefix", " ".join(pfx + [s]), pfx + [s], pfx + e, input_data(e))
     # 2. --X vs --iX --oX
     for x in IO_PAIR_NAMES:
         if "--" + x in allsp and "--i" + x in allsp and "--o" + x in allsp:
@@ -504,7 +526,9 @@ def flag_oracle(ctx, gen=None):
             flag = lhs[0] if kind == "keystroke" else label
             rc_env = dict(kl[2]).get("MLRRC")
             bad.append({
-                "class": class_of(flag, probe) if kind == "keystroke" else "flag-spelling:" + label.replace(" ", "_"),
+                "class": class_of(flag, probe) if kind == "keystroke"
+                         else "flag-spelling:--ofs-before-X2t-X2n" if kind == "prefix" and lhs[0] == "--ofs" and re.fullmatch(r"--[a-z]2[tn]", lhs[-1])
+                         else "flag-spelling:" + label.replace(" ", "_"),
                 "kind": kind, "flag": label, "probe": probe, "spelling": lhs, "expansion": rhs,
                 "input": show(stdin), "input_hex": stdin.hex(), "option_dump_fields_differing": ddiff,
                 "observed": {"status": l[0], "stdout": show(l[1]), "sepvars": show(l[2]), "stderr_tail": show(l[3])},
